@@ -45,3 +45,6 @@ From VModel Require Import Rating.
 From VProofs Require Import TieC03.
 Theorem c03_tie_unknown_text : unknown_text = src_unknown_text.
 Proof. exact tie_unknown_text. Qed.
+(* the reading of one "available since" token (product, version, client-only flag) is Algorithm.get_ssh_version as it reads now (T1c translation) *)
+Theorem c03_tie_ssh_version : forall v, ssh_version v = src_get_ssh_version v.
+Proof. exact tie_ssh_version. Qed.
